@@ -284,6 +284,7 @@ end SrvLines
       fbkt <name> <level|~>                                            -> <level>
       fsrv <partition|~>                                               -> <label>
       frld <cur m,c,d,label,traits,parent|~> <record same|~> <hadApps> <parentOk>  -> <decision> restore=<0|1> adjust=<0|1>
+      falloc <name:rank:adj|~:cap|~:m,c,d ;…> <before name:rank:adj:cap|~:m,c,d ;…|->  -> name:rank:adj:cap|~:m,c,d ;…
       fidg <existing ids csv> <stored id:(e|n|<count>) csv>            -> rm=<csv> cfg=<id:count csv> -/
 namespace DecodeLines
 open TmVerif.LoaderDecode TmVerif.Units
@@ -317,6 +318,25 @@ def line (ws : List String) : Option String :=
     let dec := match reloadDecision c r with
       | .loadNew => "loadNew" | .removed => "removed" | .same => "same" | .replaced => "replaced"
     pure s!"{dec} restore={showBool (reloadRestores c r (← bool? hadApps))} adjust={showBool (reloadAdjusts c r (← bool? parentOk))}"
+  | ["falloc", recs, before] => do
+    let pVec : String → Option (Int × Int × Int) := fun t => match (t.splitOn ",").mapM String.toInt? with
+      | some [a, b, c] => some (a, b, c) | _ => none
+    let oI : String → Option (Option Int) := fun t => if t = "~" then some none else t.toInt?.map some
+    let rs ← (if recs = "-" then some [] else (recs.splitOn ";").mapM (fun t => match t.splitOn ":" with
+      | [n, r, a, c, v] => do
+        pure ({ name := ← n.toNat?, rank := ← r.toInt?, rankAdj := ← oI a, maxUtil := ← oI c, reserved := ← pVec v } : AllocRec)
+      | _ => none))
+    let bs ← (if before = "-" then some [] else (before.splitOn ";").mapM (fun t => match t.splitOn ":" with
+      | [n, r, a, c, v] => do
+        pure ((← n.toNat?), ({ rank := ← r.toInt?, rankAdj := ← a.toInt?, maxUtil := ← oI c, reserved := ← pVec v } : AllocAttrs))
+      | _ => none))
+    let names := sortNats (rs.map (·.name)).eraseDups
+    let sh := fun (n : Nat) =>
+      let a0 := ((bs.find? (·.1 = n)).map (·.2)).getD AllocAttrs.fresh
+      let a := allocAfter rs n a0
+      let cap := match a.maxUtil with | some c => toString c | none => "~"
+      s!"{n}:{a.rank}:{a.rankAdj}:{cap}:{a.reserved.1},{a.reserved.2.1},{a.reserved.2.2}"
+    pure (String.intercalate ";" (names.map sh))
   | ["fidg", existing, stored] => do
     let st ← (csv stored).mapM (fun t => match t.splitOn ":" with
       | [g, d] => do
@@ -393,7 +413,7 @@ def stepLine' (s : DSt) (ws : List String) : DSt × String :=
       (s, (EventLines.line ws).getD "bad-op")
     else if w = "ftrt" || w = "fcode" then
       (s, (TraitLines.line ws).getD "bad-op")
-    else if w = "fapp" || w = "fbkt" || w = "fsrv" || w = "fidg" || w = "frld" then
+    else if w = "fapp" || w = "fbkt" || w = "fsrv" || w = "fidg" || w = "frld" || w = "falloc" then
       (s, (DecodeLines.line ws).getD "bad-op")
     else stepLine s ws
   | [] => stepLine s ws
